@@ -213,6 +213,7 @@ func (w *World) guardsLocal(f *Fn, n ast.Node) []Guard {
 	}
 	var out []Guard
 	var split func(g Guard)
+	depth := 0
 	split = func(g Guard) {
 		switch x := unparen(g.Cond).(type) {
 		case *ast.BinaryExpr:
@@ -225,6 +226,35 @@ func (w *World) guardsLocal(f *Fn, n ast.Node) []Guard {
 			if x.Op == token.NOT {
 				split(Guard{Cond: x.X, Val: !g.Val, Implicit: g.Implicit, At: g.At})
 				return
+			}
+		case *ast.Ident:
+			// a named condition (`tooBig := a && b; if tooBig {…}`): a local bool defined once by a
+			// boolean expression stands for that expression
+			if depth < 3 {
+				if v, ok := w.Use(x).(*types.Var); ok && !v.IsField() && v.Pkg() != nil && v.Parent() != v.Pkg().Scope() {
+					if b, isB := v.Type().Underlying().(*types.Basic); isB && b.Kind() == types.Bool && f != nil {
+						if defs := w.DefsOf(f, v); len(defs) == 1 {
+							switch d := unparen(defs[0]).(type) {
+							case *ast.BinaryExpr:
+								if d.Op == token.LAND || d.Op == token.LOR || negOp(d.Op) != token.ILLEGAL {
+									out = append(out, g) // the name itself stays a guard too
+									depth++
+									split(Guard{Cond: d, Val: g.Val, Implicit: g.Implicit, At: g.At})
+									depth--
+									return
+								}
+							case *ast.UnaryExpr:
+								if d.Op == token.NOT {
+									out = append(out, g)
+									depth++
+									split(Guard{Cond: d, Val: g.Val, Implicit: g.Implicit, At: g.At})
+									depth--
+									return
+								}
+							}
+						}
+					}
+				}
 			}
 		}
 		g.Cond = unparen(g.Cond)
@@ -539,6 +569,49 @@ func (w *World) soleCallSite(f *Fn) *CallSite {
 // soleArgument: v is a parameter (or the receiver) of f's declared root, which has a sole call
 // site: the argument expression (or receiver expression) there, and the calling function.
 func (w *World) soleArgument(f *Fn, v *types.Var) (ast.Expr, *Fn) {
+	// a parameter of a local closure (bound to a variable) that is called at exactly one place
+	for g := f; g != nil && g.Lit != nil; g = g.Parent {
+		if g.Type == nil || g.Type.Params == nil {
+			continue
+		}
+		i, idx := 0, -1
+		for _, fl := range g.Type.Params.List {
+			if _, variadic := fl.Type.(*ast.Ellipsis); variadic {
+				idx = -1
+				break
+			}
+			for _, name := range fl.Names {
+				if w.Info.Defs[name] == types.Object(v) {
+					idx = i
+				}
+				i++
+			}
+			if len(fl.Names) == 0 {
+				i++
+			}
+		}
+		if idx < 0 {
+			continue
+		}
+		var only *CallSite
+		n := 0
+		for _, in := range w.CG().In[g] {
+			if _, isCall := in.Node.(*ast.CallExpr); isCall {
+				n++
+				only = in
+			} else {
+				n += 2 // referenced otherwise (stored, passed on): not a sole synchronous call
+			}
+		}
+		if n != 1 || only.Async || only.Deferred || only.Caller == nil {
+			return nil, nil
+		}
+		call := only.Node.(*ast.CallExpr)
+		if idx < len(call.Args) && len(call.Args) == i {
+			return call.Args[idx], only.Caller
+		}
+		return nil, nil
+	}
 	cs := w.soleCallSite(f)
 	if cs == nil {
 		return nil, nil
